@@ -380,13 +380,9 @@ Definition arange_len (start stop p q : Z) : outcome Z :=
   if p =? 0 then Trap
   else let num := (stop - start) * q in
        if (num * p <=? 0) then Val 0 else Val (ceil_div num p).
-(* element i, as a numerator over q *)
+(* element i, as a numerator over q: start + element_type(index) * step (the index is converted to the element type before the
+   product, so a negative integer step stays negative for floating element types too) *)
 Definition arange_elem (start p q i : Z) : Z := start * q + i * p.
-(* element i as view::arange_t::operator() computes it: start + index * step with index of type size_t.  For an INTEGER
-   step (q = 1) the product is taken in size_t (wrap 64): added to an integer start and converted to an integer element type
-   the wrap cancels (mod 2^64); converted to a FLOATING element type it does not (a negative step gives ~1.8e19) *)
-Definition arange_elem_cxx (float_dtype : bool) (start p q i : Z) : Z :=
-  if (q =? 1) && float_dtype then start + wrap 64 (i * p) else arange_elem start p q i.
 (* linspace (view/linspace.hpp): step = (stop-start)/(endpoint ? num-1 : num); element 0 = start, element i = start + i*step,
    as the pair (numerator, denominator); denominator 0 = division by zero (inf/nan in float) *)
 Definition linspace_elem (start stop num : Z) (endpoint : bool) (i : Z) : Z * Z :=
